@@ -505,12 +505,16 @@ type runOpts struct {
 	minLen  int
 	maxLen  int
 	initial string // initial config TOML ("" = family default)
+	captcha bool   // start from the captcha-enabled member of the family
 }
 
 // runGenerated draws and executes one history against orc. It returns the case and the failure, if any.
 func runGenerated(rt *rapid.T, ro runOpts, orc oracle) (*hcase, *vh.Failure, []string) {
 	initial := ro.initial
 	def := ircgen.DefaultConfig()
+	if ro.captcha {
+		def = ircgen.CaptchaConfig()
+	}
 	if initial == "" {
 		initial = def.TOML
 	}
